@@ -263,3 +263,6 @@ var _ net.Conn = (*Conn)(nil)
 func (c *Conn) Readable() bool {
 	return c.closed || len(c.in.buf) > 0 || c.in.wclosed
 }
+
+// PeerBytesRead is the number of bytes the other end has read from this end.
+func (c *Conn) PeerBytesRead() int64 { return c.peer.BytesRead }
